@@ -272,6 +272,13 @@ def reason_ok(I, st, reason, p):
 
 
 def check_interval(ctx, prog, which='send_interval'):
+    # a short run first: the periodic sender waits on its one interval and creates no other timer (a loop that sleeps instead of ticking drifts; it also
+    # makes the long exploration below explode, so this structural claim is decided before it)
+    Ip, pp, bodyp, resp = run_timer(prog, which, max_polls=4)
+    ctx.absorb(Ip)
+    for k, (s, kind, v, n) in enumerate(resp):
+        lp.record(ctx, '%s.short.path%d' % (which, k), s, {'periodic_sender_waits_on_its_interval_only': not evs(s.trace, 'SLEEP_NEW') and len(evs(s.trace, 'INTERVAL_NEW')) <= 1},
+                  'C12.interval', on_cex=lambda m: replay(which))
     I, p, body, res = run_timer(prog, which, max_polls=9)
     ctx.absorb(I)
     ctx.encoded(prog, body)
